@@ -22,7 +22,7 @@
 //! edelete <ids>                       Dataset::delete("id IN (…)")                     -> ok n=<live>
 //! eindex zonemap <i|f> <Z> | bloom <i|s> <N> <P> | ngram s     create_index(replace)   -> ok | err
 //! eoptimize                           optimize_indices(default)                        -> ok | err
-//! escan <i|f> <query> | escan s contains <str> | escan s eq <str>   scan with the filter, use_scalar_index(true) -> ids … ; oracle: == use_scalar_index(false)
+//! escan <i|f> <query> | escan s contains <str> | escan s eq <str>   scan with the filter, use_scalar_index(false) -> ids … ; oracle: use_scalar_index(true) gives the same rows
 //! ```
 
 use std::collections::BTreeSet;
@@ -288,13 +288,14 @@ struct ZoneStat {
 /// (frag, off, value)
 type TRow<T> = (u64, u64, T);
 
-/// the defect class a training stream falls into (used to tag oracle failures)
-fn train_shape<T>(rows: &[TRow<T>]) -> Option<String> {
+/// the defect class a training stream falls into (used to tag oracle failures); `z` = rows per zone
+fn train_shape<T>(rows: &[TRow<T>], z: u64) -> Option<String> {
     // offsets of each maximal run of one fragment must be 0,1,2,… ; fragments must step by exactly +1
     let mut i = 0;
     let mut prev_frag: Option<u64> = None;
     let mut gap = false;
     let mut jump = false;
+    let mut lens: Vec<u64> = vec![];
     while i < rows.len() {
         let f = rows[i].0;
         if let Some(p) = prev_frag {
@@ -309,6 +310,7 @@ fn train_shape<T>(rows: &[TRow<T>]) -> Option<String> {
             }
             j += 1;
         }
+        lens.push((j - i) as u64);
         prev_frag = Some(f);
         i = j;
     }
@@ -316,9 +318,32 @@ fn train_shape<T>(rows: &[TRow<T>]) -> Option<String> {
         Some("train_offset_gap".into())
     } else if jump {
         Some("train_fragment_jump".into())
+    } else if boundary_overrun(&lens, z) {
+        Some("train_boundary_overrun".into())
     } else {
         None
     }
+}
+
+/// dense fragments of the given lengths, zone size z: does some zone fill up inside a batch *before* the next fragment
+/// boundary of that batch is reached while the zone was already open at the start of the batch?  (Then the builder has
+/// advanced `cur_fragment_id` too early and merges the rest of the fragment into the next fragment's first zone.)
+fn boundary_overrun(lens: &[u64], z: u64) -> bool {
+    let mut p = 0u64;
+    for (k, l) in lens.iter().enumerate() {
+        let e = p + l;
+        if k + 1 < lens.len() && z > 0 {
+            let g = (e / z) * z;
+            if e % z != 0 && p < g {
+                let c = (g - p) % z;
+                if c > 0 && e - g > z - c {
+                    return true;
+                }
+            }
+        }
+        p = e;
+    }
+    false
 }
 
 fn show_addrs(s: &BTreeSet<(u64, u64)>) -> String {
@@ -347,6 +372,7 @@ fn addrs_of(r: &SearchResult) -> (&'static str, BTreeSet<(u64, u64)>) {
 
 struct ZState {
     float: bool,
+    z: u64,
     index: Arc<dyn ScalarIndex>,
     rows: Option<Vec<TRow<Cell>>>,
 }
@@ -358,6 +384,7 @@ enum BVal {
 
 struct BState {
     strings: bool,
+    z: u64,
     index: Arc<dyn ScalarIndex>,
     rows: Vec<TRow<Option<String>>>, // value in its text form (decimal for ints)
 }
@@ -380,7 +407,8 @@ struct EState {
     rows: Vec<ERow>,
     /// defect class of the data some zone-map / bloom index was trained on
     shape: Option<String>,
-    have_index: bool,
+    /// zone size of the zone-map / bloom index and the first fragment id it has not seen
+    zone_index: Option<(u64, usize)>,
 }
 
 struct C20 {
@@ -391,6 +419,7 @@ struct C20 {
     n: Option<NState>,
     e: Option<EState>,
     zdetails: Option<CreatedIndex>,
+    bloom_nb: Vec<(u64, &'static str, u64)>,
 }
 
 fn stream_of(batch: RecordBatch) -> SendableRecordBatchStream {
@@ -484,7 +513,7 @@ impl C20 {
         self.zdetails = Some(created);
         let zones = self.dump_zones(&store).unwrap_or_default();
         // ORACLE: every row of the stream lies in a zone whose statistics are valid for it
-        let shape = train_shape(&rows);
+        let shape = train_shape(&rows, z);
         for (f, o, v) in &rows {
             let ok = zones.iter().any(|zn| {
                 zn.frag == *f
@@ -506,7 +535,7 @@ impl C20 {
             }
         }
         res.tags.push(format!("ztrain_zones_{}", zones.len().min(6)));
-        self.z = Some(ZState { float, index: idx, rows: Some(rows) });
+        self.z = Some(ZState { float, z, index: idx, rows: Some(rows) });
         Self::show_zones(&zones)
     }
 
@@ -554,7 +583,7 @@ impl C20 {
         match r {
             Ok(idx) => {
                 let back = self.dump_zones(&store).unwrap_or_default();
-                self.z = Some(ZState { float, index: idx, rows: None });
+                self.z = Some(ZState { float, z: 8, index: idx, rows: None });
                 Self::show_zones(&back)
             }
             Err(_) => "err".into(),
@@ -579,7 +608,7 @@ impl C20 {
                     if kind != "atleast" && !set.contains(&(*f, *o)) {
                         res.failures.push(OracleFailure {
                             what: format!("zone map search dropped matching row {f}.{o}={} for {q:?}", show_cell(*v)),
-                            key: train_shape(rows),
+                            key: train_shape(rows, zs.z),
                             line,
                         });
                         break;
@@ -657,7 +686,7 @@ impl C20 {
             parts.push(format!("{}:{}:{}:{}:{}", fr.value(i), st.value(i), ln.value(i), hn.value(i) as u8, hex));
         }
         // ORACLE (coverage part): every row lies in a zone; a NULL row in a zone with has_null
-        let shape = train_shape(&rows);
+        let shape = train_shape(&rows, n);
         for (f, o, v) in &rows {
             let ok = (0..b.num_rows()).any(|i| fr.value(i) == *f && st.value(i) <= *o && *o < st.value(i) + ln.value(i) && (v.is_some() || hn.value(i)));
             if !ok {
@@ -671,7 +700,7 @@ impl C20 {
         }
         res.tags.push(format!("btrain_zones_{}", b.num_rows().min(6)));
         res.tags.push(format!("btrain_nb_{real_nb}"));
-        self.b = Some(BState { strings, index: idx, rows });
+        self.b = Some(BState { strings, z: n, index: idx, rows });
         format!("blocks nb={real_nb} {}", if parts.is_empty() { "-".into() } else { parts.join(";") })
     }
 
@@ -726,7 +755,7 @@ impl C20 {
                 if kind != "atleast" && !set.contains(&(*f, *o)) {
                     res.failures.push(OracleFailure {
                         what: format!("bloom filter search dropped matching row {f}.{o} for {t:?}"),
-                        key: train_shape(&bs.rows),
+                        key: train_shape(&bs.rows, bs.z),
                         line,
                     });
                     break;
@@ -859,7 +888,7 @@ impl C20 {
         if self.e.is_none() {
             let dir = tempfile::tempdir().unwrap();
             let uri = dir.path().join("t.lance").to_string_lossy().to_string();
-            self.e = Some(EState { _dir: dir, uri, ds: None, rows: vec![], shape: None, have_index: false });
+            self.e = Some(EState { _dir: dir, uri, ds: None, rows: vec![], shape: None, zone_index: None });
         }
         let e = self.e.as_mut().unwrap();
         let start = e.rows.len() as u64;
@@ -914,16 +943,20 @@ impl C20 {
         }
     }
 
-    /// defect class of the table as a training stream: deletions inside a fragment / missing fragment ids
-    fn table_shape(ds: &Dataset) -> Option<String> {
-        let frags = ds.get_fragments();
+    /// defect class of the fragments with id >= `from` as a training stream with zone size `z`: deletions inside a
+    /// fragment / missing fragment ids / a zone overrunning a fragment boundary
+    fn table_shape(ds: &Dataset, from: usize, z: u64) -> Option<String> {
+        let frags: Vec<_> = ds.get_fragments().into_iter().filter(|f| f.id() >= from).collect();
         let gap = frags.iter().any(|f| f.metadata().deletion_file.is_some());
         let ids: Vec<usize> = frags.iter().map(|f| f.id()).collect();
         let jump = ids.windows(2).any(|w| w[1] != w[0] + 1);
+        let lens: Vec<u64> = frags.iter().map(|f| f.metadata().physical_rows.unwrap_or(0) as u64).collect();
         if gap {
             Some("train_offset_gap".into())
         } else if jump {
             Some("train_fragment_jump".into())
+        } else if boundary_overrun(&lens, z) {
+            Some("train_boundary_overrun".into())
         } else {
             None
         }
@@ -932,13 +965,13 @@ impl C20 {
     fn eindex(&mut self, t: &[&str], res: &mut CaseResult) -> String {
         let Some(e) = self.e.as_mut() else { return BAD.into() };
         let Some(ds) = e.ds.as_mut() else { return BAD.into() };
-        let (col, ty, params, inexact_zone) = match t {
+        let (col, ty, params, zone_size) = match t {
             ["zonemap", c @ ("i" | "f"), z] => {
                 let Ok(z) = z.parse::<u64>() else { return BAD.into() };
                 if z == 0 {
                     return BAD.into();
                 }
-                (*c, IndexType::ZoneMap, ScalarIndexParams::for_builtin(BuiltinIndexType::ZoneMap).with_params(&serde_json::json!({"rows_per_zone": z})), true)
+                (*c, IndexType::ZoneMap, ScalarIndexParams::for_builtin(BuiltinIndexType::ZoneMap).with_params(&serde_json::json!({"rows_per_zone": z})), Some(z))
             }
             ["bloom", c @ ("i" | "s"), n, p] => {
                 let (Ok(n), Ok(p)) = (n.parse::<u64>(), p.parse::<f64>()) else { return BAD.into() };
@@ -949,22 +982,23 @@ impl C20 {
                     *c,
                     IndexType::BloomFilter,
                     ScalarIndexParams::for_builtin(BuiltinIndexType::BloomFilter).with_params(&serde_json::json!({"number_of_items": n, "probability": p})),
-                    true,
+                    Some(n),
                 )
             }
-            ["ngram", "s"] => ("s", IndexType::NGram, ScalarIndexParams::for_builtin(BuiltinIndexType::NGram), false),
+            ["ngram", "s"] => ("s", IndexType::NGram, ScalarIndexParams::for_builtin(BuiltinIndexType::NGram), None),
             _ => return BAD.into(),
         };
-        if inexact_zone {
-            if let Some(s) = Self::table_shape(ds) {
-                e.shape = Some(s);
-            }
+        e.shape = None;
+        e.zone_index = None;
+        if let Some(z) = zone_size {
+            e.shape = Self::table_shape(ds, 0, z);
+            let next = ds.get_fragments().iter().map(|f| f.id() + 1).max().unwrap_or(0);
+            e.zone_index = Some((z, next));
         }
         let rt = &self.rt;
         let r = catch_unwind(AssertUnwindSafe(|| rt.block_on(ds.create_index(&[col], ty, Some(format!("ix_{col}")), &params, true))));
         match r {
             Ok(Ok(())) => {
-                e.have_index = true;
                 res.tags.push(format!("eindex_{}", t[0]));
                 "ok".into()
             }
@@ -984,8 +1018,12 @@ impl C20 {
     fn eoptimize(&mut self) -> String {
         let Some(e) = self.e.as_mut() else { return BAD.into() };
         let Some(ds) = e.ds.as_mut() else { return BAD.into() };
-        if let Some(s) = Self::table_shape(ds) {
-            e.shape = Some(s);
+        if let Some((z, from)) = e.zone_index {
+            if let Some(s) = Self::table_shape(ds, from, z) {
+                e.shape = Some(s);
+            }
+            let next = ds.get_fragments().iter().map(|f| f.id() + 1).max().unwrap_or(0);
+            e.zone_index = Some((z, next));
         }
         match self.rt.block_on(ds.optimize_indices(&OptimizeOptions::default())) {
             Ok(()) => "ok".into(),
@@ -1099,7 +1137,8 @@ impl C20 {
                         line,
                     });
                 }
-                format!("ids {}", show_nat_list(a.iter().copied()))
+                // the output line is the PLAIN scan (the reference the model predicts); the indexed scan is judged by the oracle
+                format!("ids {}", show_nat_list(b.iter().copied()))
             }
             (Err(x), Ok(_)) => {
                 res.failures.push(OracleFailure { what: format!("indexed scan with filter {filter:?} failed ({x}) but the plain scan works"), key: None, line });
@@ -1257,9 +1296,10 @@ impl C20 {
 // generator
 // ------------------------------------------------------------------------------------------------
 
-/// (number_of_items, probability) -> number of 32-byte blocks `Sbbf::with_ndv_fpp` allocates (observed; float sizing is
-/// not modelled — a different size shows up as a disagreement on the `blocks nb=` output)
-const BLOOM_SIZES: [(u64, &str, u64); 4] = [(4, "0.01", 1), (4, "0.00001", 2), (8, "0.001", 2), (16, "0.0001", 8)];
+/// (number_of_items, probability) configurations of the bloom filter.  The number of 32-byte blocks `Sbbf::with_ndv_fpp`
+/// allocates for them (float sizing maths, not modelled) is measured once at start-up on the real code and written into
+/// the `nb=` field of the generated `btrain` lines; corpus / replay lines carry their own `nb=`.
+const BLOOM_CONFIGS: [(u64, &str); 6] = [(4, "0.01"), (4, "0.00001"), (8, "0.001"), (16, "0.0001"), (64, "0.0001"), (256, "0.001")];
 
 const ALPHABET: [char; 40] = [
     'a', 'b', 'c', 'a', 'b', 'l', 'o', 'w', 'A', 'B', 'Z', '0', '1', '9', ' ', ' ', '-', '_', '.', 'é', 'É', 'ß', 'æ', 'Æ', 'ﬁ', '①', 'ø',
@@ -1398,9 +1438,9 @@ impl C20 {
         lines
     }
 
-    fn gen_bloom_case(rng: &mut Rng) -> Vec<String> {
+    fn gen_bloom_case(rng: &mut Rng, sizes: &[(u64, &'static str, u64)]) -> Vec<String> {
         let strings = rng.chance(1, 3);
-        let (n, p, nb) = *rng.pick(&BLOOM_SIZES);
+        let (n, p, nb) = *rng.pick(sizes);
         let defect = rng.chance(1, 8);
         let mut vals: Vec<String> = vec![];
         let rows: Vec<String> = gen_stream(rng, defect)
@@ -1489,7 +1529,7 @@ impl C20 {
             }
             2 | 3 => {
                 let c = if kind == 2 { "i" } else { "s" };
-                let (n, p, _) = *rng.pick(&BLOOM_SIZES);
+                let (n, p) = *rng.pick(&BLOOM_CONFIGS);
                 lines.push(format!("eindex bloom {c} {n} {p}"));
                 c
             }
@@ -1541,7 +1581,7 @@ impl Prop for C20 {
     fn gen_case(&mut self, rng: &mut Rng, _tier: Tier, _idx: usize) -> Vec<String> {
         let mut lines = match rng.below(20) {
             0..=6 => Self::gen_zone_case(rng),
-            7..=10 => Self::gen_bloom_case(rng),
+            7..=10 => Self::gen_bloom_case(rng, &self.bloom_nb),
             11..=16 => Self::gen_ngram_case(rng),
             _ => Self::gen_e2e_case(rng),
         };
@@ -1587,5 +1627,12 @@ impl Prop for C20 {
 fn main() {
     std::env::set_var("LANCE_NGRAM_NUM_PARTITIONS", "4");
     let rt = tokio::runtime::Builder::new_current_thread().enable_all().build().unwrap();
-    run_main(C20 { rt, n_store: 0, z: None, b: None, n: None, e: None, zdetails: None })
+    let mut c = C20 { rt, n_store: 0, z: None, b: None, n: None, e: None, zdetails: None, bloom_nb: vec![] };
+    for (n, p) in BLOOM_CONFIGS {
+        let mut res = CaseResult::default();
+        let out = c.btrain(false, n, p, 0, vec![(0, 0, Some("1".into()))], 0, &mut res);
+        let nb = out.strip_prefix("blocks nb=").and_then(|s| s.split(' ').next()).and_then(|x| x.parse().ok()).expect("bloom size probe");
+        c.bloom_nb.push((n, p, nb));
+    }
+    run_main(c)
 }
